@@ -98,7 +98,9 @@ func genKScript(rng *simrt.Rand, n int) []kop {
 			ops = append(ops, kop{op: "list", a: []string{".", "d"}[rng.Intn(2)]})
 		default:
 			if nfds > 0 {
-				if rng.Chance(1, 2) {
+				if rng.Chance(1, 3) {
+					ops = append(ops, kop{op: "fallocate", fd: rng.Intn(nfds), flags: rng.Pick(0, 1, 3, 3, 0x10, 0x11, 2), off: int64(rng.Pick(0, 3, 100, 5000)), n: rng.Pick(0, 1, 50, 4096, 9000)})
+				} else if rng.Chance(1, 2) {
 					ops = append(ops, kop{op: "dup", fd: rng.Intn(nfds)})
 					nfds++
 				} else {
@@ -236,6 +238,12 @@ func runKScript(ops []kop, real bool) ([]string, error) {
 			case "ftruncate":
 				if fd := fdOf(o.fd); fd >= 0 {
 					line = fmt.Sprintf("errno=%d", errnoOf(simunix.Ftruncate(fd, o.off)))
+				} else {
+					line = "skipped"
+				}
+			case "fallocate":
+				if fd := fdOf(o.fd); fd >= 0 {
+					line = fmt.Sprintf("errno=%d", errnoOf(simunix.Fallocate(fd, uint32(o.flags), o.off, int64(o.n))))
 				} else {
 					line = "skipped"
 				}
